@@ -101,11 +101,28 @@ ATTRITER = {
 }
 
 
+class SubExporter(DictExporter):
+    """a DictExporter *subclass*: the customisation lives in an overridden public method (the attribute `a` is
+    dropped from every exported dictionary), not in a constructor option"""
+
+    def export(self, node):
+        def strip(d):
+            d.pop("a", None)
+            for c in d.get("children", ()):
+                strip(c)
+            return d
+        return strip(DictExporter.export(self, node))
+
+
 def childiter_of(k):
     if k == "reversed":
         return lambda cs: list(reversed(cs))
     if k == "first2":
         return lambda cs: list(cs)[:2]
+    if k == "none":
+        return lambda cs: []
+    if k == "tail":
+        return lambda cs: list(cs)[1:]
     return list
 
 
@@ -143,7 +160,12 @@ def impl(case):
                 raise KeyError("user attriter")
             return real(items)
         kw = dict(kw, attriter=guarded)
-    exp = DictExporter(**kw)
+    expcls = DictExporter
+    if case.get("via_subclass"):
+        # same behaviour as attriter "drop_a", obtained by overriding a method of the exporter class
+        kw = {k: v for k, v in kw.items() if k != "attriter"}
+        expcls = SubExporter
+    exp = expcls(**kw)
     if prior:
         for k in prior:
             state["boom_at"], state["calls"] = k, 0
@@ -188,7 +210,7 @@ def impl(case):
         if custom:
             kw = dict(kw)
             kw["maxlevel"] = case.get("dictmaxlevel")
-        de = DictExporter(**kw) if custom else None
+        de = expcls(**kw) if custom else None
         pj = jk.pop("prior_jsonmax", None)
         jkw.pop("prior_jsonmax", None)
         if pj is not None:
@@ -196,7 +218,7 @@ def impl(case):
             JsonExporter(maxlevel=pj, **jkw).export(top)
         je = JsonExporter(dictexporter=de, maxlevel=jmax, **jkw)
         text = je.export(root)
-        ref_exp = DictExporter(**kw) if custom else DictExporter()
+        ref_exp = expcls(**kw) if custom else DictExporter()
         if jmax is not None:
             ref_exp.maxlevel = jmax
         expect = json.dumps(ref_exp.export(root), **jkw)
